@@ -387,15 +387,15 @@ Proof.
     - pose proof (CAPACITY_ge cap1). lia. }
   rewrite hget_app_new.
   set (nb := match pb with
-             | Some b => set_data (set_size (mkblock 1 0 cap (repeat UNINIT cap)) (b_size b))
+             | Some b => set_data (set_size (mkblock 1 0 cap (repeat UNINIT cap) false) (b_size b))
                                   (set_at (repeat UNINIT cap) 0 (firstn (b_size b) (b_data b)))
-             | None => mkblock 1 0 cap (repeat UNINIT cap)
+             | None => mkblock 1 0 cap (repeat UNINIT cap) false
              end).
   assert (Hh2 : match pb with
-                | Some b => hset (h ++ [Some (mkblock 1 0 cap (repeat UNINIT cap))]) (length h)
-                              (Some (set_data (set_size (mkblock 1 0 cap (repeat UNINIT cap)) (b_size b))
-                                       (set_at (b_data (mkblock 1 0 cap (repeat UNINIT cap))) 0 (firstn (b_size b) (b_data b)))))
-                | None => h ++ [Some (mkblock 1 0 cap (repeat UNINIT cap))]
+                | Some b => hset (h ++ [Some (mkblock 1 0 cap (repeat UNINIT cap) false)]) (length h)
+                              (Some (set_data (set_size (mkblock 1 0 cap (repeat UNINIT cap) false) (b_size b))
+                                       (set_at (b_data (mkblock 1 0 cap (repeat UNINIT cap) false)) 0 (firstn (b_size b) (b_data b)))))
+                | None => h ++ [Some (mkblock 1 0 cap (repeat UNINIT cap) false)]
                 end = h ++ [Some nb]).
   { unfold nb. destruct pb as [b|]; [|reflexivity]. rewrite hset_app_last. reflexivity. }
   rewrite Hh2. clear Hh2.
@@ -426,6 +426,8 @@ Proof.
     unfold var. cbn [heap_of vars_of]. rewrite Hs. apply absv_slot_of.
   - split; [exact Hget|]. split; [exact Hr|]. split; [exact Hok|]. split; [exact Hview|]. split; [exact Hsz|]. lia.
 Qed.
+
+Definition view (b : block) : list N := firstn (b_size b) (b_data b).
 
 (* ---- member functions: the three shapes ------------------------------------ *)
 (* outcome of a member function run on live variable v: invariant kept, v's value becomes l', the others keep theirs *)
@@ -496,8 +498,137 @@ Proof.
 Qed.
 End Member.
 
+(* ---- accessors: afterwards the block v points to is held by v alone ---------- *)
+Lemma detach_snd h p c0 : snd (detach h p c0) = Some (length h).
+Proof. unfold detach, new_private. reflexivity. Qed.
+
+(* outcome of a member function after which v's block (if any) has ref = 1: as mem_ok, and the block *)
+Definition uniq_ok (h : heap) (vs : list slot) (v : nat) (res : heap * option nat) (l : list N) : Prop :=
+  mem_ok h vs v res l /\
+  forall k, snd res = Some k -> exists b, hget (fst res) k = Some b /\ b_ref b = 1 /\ blk_ok b /\ view b = l.
+
+Lemma mem_ok_contents h vs v res l : v < length vs -> mem_ok h vs v res l -> contents (fst res) (snd res) = l.
+Proof.
+  intros Hv [_ HA]. assert (E : vvar (abs (mkstate (fst res) (upd vs v (slot_of (snd res))))) v = Some l).
+  { rewrite HA. unfold vvar. apply nth_upd_eq. rewrite abs_length. exact Hv. }
+  rewrite vvar_abs in E. unfold var in E. cbn [heap_of vars_of] in E. rewrite nth_upd_eq in E by exact Hv.
+  rewrite absv_slot_of in E. congruence.
+Qed.
+
+(* change in place the block an accessor left to v alone *)
+Lemma uniq_then h vs v h1 p1 l (f : block -> block) l' :
+  v < length vs -> uniq_ok h vs v (h1, p1) l ->
+  (forall b, b_ref b = 1 -> blk_ok b -> view b = l -> b_ref (f b) = 1 /\ blk_ok (f b) /\ view (f b) = l') ->
+  (p1 = None -> l' = l) ->
+  uniq_ok h vs v (on_block h1 p1 f, p1) l'.
+Proof.
+  intros Hv [[HI1 HA1] HU] Hf Hnone. cbn [fst snd] in *. destruct p1 as [k|].
+  - destruct (HU k eq_refl) as [b [Hb [Hr [Hok Hview]]]]. destruct (Hf b Hr Hok Hview) as [Hr' [Hok' Hl']].
+    unfold on_block. rewrite Hb. cbn [slot_of] in *.
+    assert (Hv1 : v < length (upd vs v (Ptr k))) by (rewrite upd_length; exact Hv).
+    assert (Hn1 : nth v (upd vs v (Ptr k)) Dead = Ptr k) by (apply nth_upd_eq, Hv).
+    destruct (mutate_ok h1 _ v k b (f b) HI1 Hv1 Hn1 Hb Hr Hr' Hok') as [HI2 HA2].
+    split.
+    + unfold mem_ok. cbn [fst snd slot_of]. split; [exact HI2|]. rewrite HA2, HA1, upd_upd. unfold view in Hl'. rewrite Hl'. reflexivity.
+    + cbn [fst snd]. intros k' E. inversion E. subst k'. exists (f b). split; [apply hget_hset_eq; eapply hget_Some_lt, Hb|]. auto.
+  - cbn [on_block]. rewrite (Hnone eq_refl). split; [split; assumption|]. intros k E. discriminate E.
+Qed.
+
+Lemma markf_ok c b : b_ref (markf c b) = b_ref b /\ blk_ok (markf c b) = blk_ok b /\ view (markf c b) = view b /\ b_size (markf c b) = b_size b /\ b_data (markf c b) = b_data b.
+Proof. unfold markf. destruct (c_fix_leak c); repeat split; reflexivity. Qed.
+
+Lemma uniq_mark c h vs v h1 p1 l : v < length vs -> uniq_ok h vs v (h1, p1) l -> uniq_ok h vs v (mark c h1 p1, p1) l.
+Proof.
+  intros Hv U. unfold mark. apply (uniq_then h vs v h1 p1 l (markf c) l Hv U); [|reflexivity].
+  intros b Hr Hok Hview. destruct (markf_ok c b) as [A [B [C _]]]. rewrite A, B, C. auto.
+Qed.
+
+(* one member function after another on the same variable *)
+Lemma mem_ok_then h vs v res l res' l' : v < length vs -> mem_ok h vs v res l ->
+  mem_ok (fst res) (upd vs v (slot_of (snd res))) v res' l' -> mem_ok h vs v res' l'.
+Proof. intros Hv [I1 A1] [I2 A2]. rewrite upd_upd in I2, A2. split; [exact I2|]. rewrite A2, A1, upd_upd. reflexivity. Qed.
+
+(* if (p && p->leaked) detach();   after a member function *)
+Lemma leak_detach_ok c h vs v res l : v < length vs -> mem_ok h vs v res l ->
+  mem_ok h vs v (if c_fix_leak c && leaked (fst res) (snd res) then detach (fst res) (snd res) 0 else res) l.
+Proof.
+  intros Hv M. destruct (c_fix_leak c && leaked (fst res) (snd res)); [|exact M].
+  apply (mem_ok_then h vs v res l _ l Hv M). pose proof (mem_ok_contents h vs v res l Hv M) as E.
+  assert (Hv' : v < length (upd vs v (slot_of (snd res)))) by (rewrite upd_length; exact Hv).
+  pose proof (detach_only (fst res) _ v (snd res) (proj1 M) Hv' (nth_upd_eq _ _ _ _ Hv) 0) as [D _].
+  rewrite E in D. exact D.
+Qed.
+
+Section Accessors.
+Variables (h : heap) (vs : list slot) (v : nat) (p : option nat).
+Hypothesis HI : Inv (mkstate h vs).
+Hypothesis Hv : v < length vs.
+Hypothesis Hs : nth v vs Dead = slot_of p.
+
+Lemma detach_uniq c0 : uniq_ok h vs v (detach h p c0) (contents h p).
+Proof.
+  destruct (detach_ok h vs v p c0 HI Hv Hs) as [h1 [nb [E [HI1 [HA1 [Hg [Hr [Hok [Hview [Hsz [Hc0 Hc1]]]]]]]]]]].
+  pose proof (detach_only h vs v p HI Hv Hs c0) as [D _]. rewrite E in *. split; [exact D|].
+  cbn [fst snd]. intros k Ek. inversion Ek. subst k. exists nb. auto.
+Qed.
+
+Lemma keep_uniq : (forall i b, p = Some i -> hget h i = Some b -> b_ref b = 1) -> uniq_ok h vs v (h, p) (contents h p).
+Proof.
+  intros Hu. split; [apply (noop_ok h vs v p HI Hv Hs)|]. cbn [fst snd]. intros k Ek.
+  destruct (p_block h vs v p HI Hs k Ek) as [b [Hb [H1 Hok]]]. exists b. split; [exact Hb|]. split; [apply (Hu k b Ek Hb)|].
+  split; [exact Hok|]. subst p. unfold view, contents. rewrite Hb. reflexivity.
+Qed.
+
+End Accessors.
+
+Section Accessors2.
+Variables (h : heap) (vs : list slot) (v : nat) (p : option nat).
+Hypothesis HI : Inv (mkstate h vs).
+Hypothesis Hv : v < length vs.
+Hypothesis Hs : nth v vs Dead = slot_of p.
+
+(* operator[] up to the returned reference, in every configuration *)
+Lemma acc_index_uniq c : uniq_ok h vs v (acc_index c h p) (contents h p) /\ exists k, snd (acc_index c h p) = Some k.
+Proof.
+  unfold acc_index. destruct (c_fix_index c).
+  - destruct p as [i|] eqn:Ep.
+    + destruct (p_block h vs v (Some i) HI Hs i eq_refl) as [b [Hb [H1 Hok]]]. rewrite Hb.
+      destruct (Nat.ltb_spec 1 (b_ref b)) as [L|L].
+      * split; [apply (detach_uniq h vs v (Some i) HI Hv Hs)|]. exists (length h). apply detach_snd.
+      * split; [|exists i; reflexivity]. apply (keep_uniq h vs v (Some i) HI Hv Hs). intros i' b' E Hb'. inversion E. subst i'. rewrite Hb in Hb'. inversion Hb'. subst b'. lia.
+    + split; [apply (detach_uniq h vs v None HI Hv Hs)|]. exists (length h). apply detach_snd.
+  - split; [apply (detach_uniq h vs v p HI Hv Hs)|]. exists (length h). apply detach_snd.
+Qed.
+
+Lemma index_ref_uniq c : uniq_ok h vs v (m_index_ref c h p) (contents h p) /\ exists k, snd (m_index_ref c h p) = Some k.
+Proof.
+  unfold m_index_ref. destruct (acc_index_uniq c) as [U [k Ek]]. destruct (acc_index c h p) as [h1 p1]. cbn [snd] in Ek. subst p1.
+  split; [apply uniq_mark; assumption|exists k; reflexivity].
+Qed.
+
+(* non-const data(): detached when shared, in every configuration *)
+Lemma data_uniq c : uniq_ok h vs v (m_data c h p) (contents h p).
+Proof.
+  unfold m_data. destruct p as [i|] eqn:Ep.
+  - destruct (p_block h vs v (Some i) HI Hs i eq_refl) as [b [Hb [H1 Hok]]]. rewrite Hb.
+    assert (U : uniq_ok h vs v (if 1 <? b_ref b then detach h (Some i) 0 else (h, Some i)) (contents h (Some i))).
+    { destruct (Nat.ltb_spec 1 (b_ref b)) as [L|L]; [apply (detach_uniq h vs v (Some i) HI Hv Hs)|].
+      apply (keep_uniq h vs v (Some i) HI Hv Hs). intros i' b' E Hb'. inversion E. subst i'. rewrite Hb in Hb'. inversion Hb'. subst b'. lia. }
+    destruct (if 1 <? b_ref b then detach h (Some i) 0 else (h, Some i)) as [h1 p1]. apply uniq_mark; assumption.
+  - apply (keep_uniq h vs v None HI Hv Hs). intros i b E. discriminate E.
+Qed.
+
+Lemma data_some c : p <> None -> exists k, snd (m_data c h p) = Some k.
+Proof.
+  intros Hp. unfold m_data. destruct p as [i|] eqn:Ep; [|congruence].
+  destruct (p_block h vs v (Some i) HI Hs i eq_refl) as [b [Hb _]]. rewrite Hb.
+  destruct (1 <? b_ref b).
+  - pose proof (detach_snd h (Some i) 0) as E. destruct (detach h (Some i) 0) as [h1 p1]. cbn [snd] in *. exists (length h). exact E.
+  - exists i. reflexivity.
+Qed.
+End Accessors2.
+
 (* ---- block-level effects ---------------------------------------------------- *)
-Definition view (b : block) : list N := firstn (b_size b) (b_data b).
 
 Definition resize_block (size : nat) (b : block) : block :=
   set_size (if b_size b <? size then set_data b (set_at (b_data b) (b_size b) (repeat 0%N (size - b_size b))) else b) size.
@@ -543,6 +674,9 @@ Proof.
   induction l as [|a l IH]; intros [|n] [|pos] d H; cbn [firstn nth]; try reflexivity; try lia. apply IH. lia.
 Qed.
 
+Lemma view_length b : blk_ok b -> length (view b) = b_size b.
+Proof. intros [Hsz Hlen]. unfold view. rewrite firstn_length. lia. Qed.
+
 (* ---- member functions of a live variable ------------------------------------ *)
 Section Members.
 Variables (h : heap) (vs : list slot) (v : nat) (p : option nat).
@@ -555,49 +689,46 @@ Proof. intros Hb. unfold contents, view. rewrite Hb. reflexivity. Qed.
 Lemma m_size_block i b : hget h i = Some b -> m_size h (Some i) = b_size b.
 Proof. intros Hb. unfold m_size. rewrite Hb. reflexivity. Qed.
 
-Lemma index_set_ok pos value : mem_ok h vs v (m_index_set h p pos value) (upd (contents h p) pos value).
+Lemma index_set_uniq c pos value : uniq_ok h vs v (m_index_set c h p pos value) (upd (contents h p) pos value).
 Proof.
-  unfold m_index_set. pose proof (detach_then h vs v p HI Hv Hs 0 (fun b => set_data b (upd (b_data b) pos value)) (upd (contents h p) pos value)) as D.
-  destruct (detach h p 0) as [h1 p1]. cbn [fst snd] in D. apply D. clear D.
-  intros nb Hr Hok Hview _ _ _. destruct (set_cell_ok pos value nb Hok) as [A [B C]].
-  split; [lia|]. split; [exact B|]. unfold view in C. rewrite C, Hview. reflexivity.
+  unfold m_index_set. destruct (index_ref_uniq h vs v p HI Hv Hs c) as [U [k Ek]]. destruct (m_index_ref c h p) as [h1 p1]. cbn [snd] in Ek. subst p1.
+  apply (uniq_then h vs v h1 (Some k) (contents h p)); [exact Hv|exact U| |discriminate].
+  intros b Hr Hok Hview. destruct (set_cell_ok pos value b Hok) as [A [B C]]. rewrite A, C, Hview. auto.
 Qed.
 
-Lemma index_get_ok pos :
-  mem_ok h vs v (fst (m_index_get h p pos)) (contents h p) /\
-  (pos < length (contents h p) -> snd (m_index_get h p pos) = nth pos (contents h p) UNINIT).
+Lemma index_set_ok c pos value : mem_ok h vs v (m_index_set c h p pos value) (upd (contents h p) pos value).
+Proof. apply index_set_uniq. Qed.
+
+Lemma index_get_ok c pos :
+  mem_ok h vs v (fst (m_index_get c h p pos)) (contents h p) /\
+  (pos < length (contents h p) -> snd (m_index_get c h p pos) = nth pos (contents h p) UNINIT).
 Proof.
-  unfold m_index_get. destruct (detach_ok h vs v p 0 HI Hv Hs) as [h1 [nb [E [HI1 [HA1 [Hg [Hr [Hok [Hview [Hsz [Hc0 Hc1]]]]]]]]]]].
-  pose proof (detach_only h vs v p HI Hv Hs 0) as [D _]. rewrite E in *. cbn [fst snd]. split; [exact D|].
-  intros Hpos. unfold data_at. rewrite Hg. rewrite <- Hview in *. rewrite firstn_length in Hpos.
-  symmetry. apply nth_firstn_lt. lia.
+  unfold m_index_get. destruct (index_ref_uniq h vs v p HI Hv Hs c) as [[M U] [k Ek]]. destruct (m_index_ref c h p) as [h1 p1]. cbn [fst snd] in *. subst p1.
+  split; [exact M|]. intros Hpos. destruct (U k eq_refl) as [b [Hb [Hr [Hok Hview]]]]. unfold data_at. rewrite Hb.
+  rewrite <- Hview in *. unfold view in *. rewrite firstn_length in Hpos. symmetry. apply nth_firstn_lt. lia.
 Qed.
 
-Lemma data_ok :
-  mem_ok h vs v (m_data h p) (contents h p) /\ contents (fst (m_data h p)) (snd (m_data h p)) = contents h p.
+Lemma data_ok c :
+  mem_ok h vs v (m_data c h p) (contents h p) /\ contents (fst (m_data c h p)) (snd (m_data c h p)) = contents h p.
 Proof.
-  unfold m_data. destruct p as [i|] eqn:Ep.
-  - destruct (p_block h vs v (Some i) HI Hs i eq_refl) as [b [Hb [H1 Hok]]]. rewrite Hb.
-    destruct (1 <? b_ref b).
-    + pose proof (detach_only h vs v (Some i) HI Hv Hs 0) as [D [C _]]. split; assumption.
-    + split; [apply (noop_ok h vs v (Some i) HI Hv Hs)|reflexivity].
-  - split; [apply (noop_ok h vs v None HI Hv Hs)|reflexivity].
+  pose proof (data_uniq h vs v p HI Hv Hs c) as [M _]. split; [exact M|]. apply (mem_ok_contents h vs v _ _ Hv M).
 Qed.
 
-Lemma data_set_ok pos value :
-  mem_ok h vs v (on_block (fst (m_data h p)) (snd (m_data h p)) (fun b => set_data b (upd (b_data b) pos value)), snd (m_data h p))
+Lemma data_c_ok c :
+  mem_ok h vs v (m_data_c c h p) (contents h p) /\ contents (fst (m_data_c c h p)) (snd (m_data_c c h p)) = contents h p.
+Proof.
+  unfold m_data_c. destruct (c_fix_leak c); [apply data_ok|]. split; [apply (noop_ok h vs v p HI Hv Hs)|reflexivity].
+Qed.
+
+Lemma data_set_ok c pos value :
+  mem_ok h vs v (on_block (fst (m_data c h p)) (snd (m_data c h p)) (fun b => set_data b (upd (b_data b) pos value)), snd (m_data c h p))
          (upd (contents h p) pos value).
 Proof.
-  unfold m_data. destruct p as [i|] eqn:Ep.
-  - destruct (p_block h vs v (Some i) HI Hs i eq_refl) as [b [Hb [H1 Hok]]]. rewrite Hb.
-    destruct (Nat.ltb_spec 1 (b_ref b)) as [L|L].
-    + apply (detach_then h vs v (Some i) HI Hv Hs 0). intros nb Hr Hok' Hview _ _ _.
-      destruct (set_cell_ok pos value nb Hok') as [A [B C]]. split; [lia|]. split; [exact B|]. unfold view in C. rewrite C, Hview. reflexivity.
-    + cbn [fst snd]. destruct (set_cell_ok pos value b Hok) as [A [B C]].
-      pose proof (inplace_then h vs v (Some i) HI Hv Hs i b (fun b => set_data b (upd (b_data b) pos value)) eq_refl Hb) as M.
-      cbv beta in M. rewrite (contents_view i b Hb). unfold view in *. rewrite <- C. apply M; [lia|lia|exact B].
-  - cbn [fst snd on_block contents]. replace (upd (@nil N) pos value) with (@nil N) by (destruct pos; reflexivity).
-    apply (noop_ok h vs v None HI Hv Hs).
+  pose proof (data_uniq h vs v p HI Hv Hs c) as U. destruct (m_data c h p) as [h1 p1]. cbn [fst snd].
+  apply (uniq_then h vs v h1 p1 (contents h p)); [exact Hv|exact U| |].
+  - intros b Hr Hok Hview. destruct (set_cell_ok pos value b Hok) as [A [B C]]. rewrite A, C, Hview. auto.
+  - intros E. subst p1. pose proof (mem_ok_contents h vs v _ _ Hv (proj1 U)) as C. cbn [fst snd] in C.
+    change (contents h1 None) with (@nil N) in C. rewrite <- C. destruct pos; reflexivity.
 Qed.
 
 Lemma reserve_ok size : mem_ok h vs v (m_reserve h p size) (contents h p).
@@ -659,21 +790,40 @@ Proof.
   - specialize (D 0 (or_intror eq_refl)). destruct (detach h None 0) as [h1 p1]. exact D.
 Qed.
 
-Lemma pop_ok : mem_ok h vs v (m_pop_back h p) (removelast (contents h p)).
+(* pop_back on a non-empty array: afterwards the block is v's alone, in every configuration *)
+Lemma pop_uniq c i b : p = Some i -> hget h i = Some b -> 0 < b_size b ->
+  uniq_ok h vs v (m_pop_back c h p) (removelast (contents h p)).
 Proof.
-  unfold m_pop_back. destruct p as [i|] eqn:Ep.
-  - destruct (p_block h vs v (Some i) HI Hs i eq_refl) as [b [Hb [H1 Hok]]]. rewrite Hb.
-    destruct (Nat.ltb_spec 0 (b_size b)) as [L|L].
-    + pose proof (detach_then h vs v (Some i) HI Hv Hs 0 (fun b => set_size b (b_size b - 1)) (removelast (contents h (Some i)))) as D.
-      destruct (detach h (Some i) 0) as [h1 p1]. cbn [fst snd] in D. apply D. clear D.
-      intros nb Hr Hok' Hview Hsz _ _. rewrite (m_size_block i b Hb) in Hsz.
-      destruct (pop_block_ok nb Hok') as [A [B C]]; [lia|]. split; [lia|]. split; [exact B|]. unfold view in C. rewrite C, Hview. reflexivity.
-    + rewrite (contents_view i b Hb). unfold view. replace (b_size b) with 0 by lia. cbn [firstn removelast].
-      pose proof (noop_ok h vs v (Some i) HI Hv Hs) as M. rewrite (contents_view i b Hb) in M. unfold view in M.
-      replace (b_size b) with 0 in M by lia. exact M.
-  - cbn [contents removelast]. apply (noop_ok h vs v None HI Hv Hs).
+  intros Ep Hb L. subst p. unfold m_pop_back. rewrite Hb. destruct (Nat.ltb_spec 0 (b_size b)) as [_|L0]; [|lia].
+  destruct (p_block h vs v (Some i) HI Hs i eq_refl) as [b' [Hb' [H1 Hok]]]. rewrite Hb in Hb'. inversion Hb'. subst b'.
+  assert (U : uniq_ok h vs v (if c_fix_index c && negb (1 <? b_ref b) then (h, Some i) else detach h (Some i) 0) (contents h (Some i))).
+  { assert (D : uniq_ok h vs v (detach h (Some i) 0) (contents h (Some i))) by apply (detach_uniq h vs v (Some i) HI Hv Hs).
+    destruct (c_fix_index c); cbn [andb]; [|exact D]. destruct (Nat.ltb_spec 1 (b_ref b)) as [L1|L1]; cbn [negb]; [exact D|].
+    apply (keep_uniq h vs v (Some i) HI Hv Hs). intros i' b' E Hb''. inversion E. subst i'. rewrite Hb in Hb''. inversion Hb''. subst b'. lia. }
+  destruct (if c_fix_index c && negb (1 <? b_ref b) then (h, Some i) else detach h (Some i) 0) as [h1 p1].
+  assert (Hlen : length (contents h (Some i)) = b_size b) by (rewrite (contents_view i b Hb); apply view_length, Hok).
+  apply (uniq_then h vs v h1 p1 (contents h (Some i))); [exact Hv|exact U| |].
+  - intros nb Hr Hok' Hview. assert (b_size nb = b_size b) by (rewrite <- (view_length nb Hok'), Hview; exact Hlen).
+    destruct (pop_block_ok nb Hok') as [A [B C]]; [lia|]. rewrite A, C, Hview. auto.
+  - intros E. subst p1. pose proof (mem_ok_contents h vs v _ _ Hv (proj1 U)) as C. cbn [fst snd] in C.
+    change (contents h1 None) with (@nil N) in C. rewrite <- C in Hlen. cbn [length] in Hlen. lia.
 Qed.
+
 End Members.
+
+Lemma pop_ok h vs v p c : Inv (mkstate h vs) -> v < length vs -> nth v vs Dead = slot_of p ->
+  mem_ok h vs v (m_pop_back c h p) (removelast (contents h p)).
+Proof.
+  intros HI Hv Hs. destruct p as [i|] eqn:Ep.
+  - destruct (p_block h vs v (Some i) HI Hs i eq_refl) as [b [Hb [H1 Hok]]].
+    destruct (Nat.ltb_spec 0 (b_size b)) as [L|L].
+    + apply (pop_uniq h vs v (Some i) HI Hv Hs c i b eq_refl Hb L).
+    + unfold m_pop_back. rewrite Hb. destruct (Nat.ltb_spec 0 (b_size b)) as [L'|_]; [lia|].
+      rewrite (contents_view h i b Hb). unfold view. replace (b_size b) with 0 by lia. cbn [firstn removelast].
+      pose proof (noop_ok h vs v (Some i) HI Hv Hs) as M. rewrite (contents_view h i b Hb) in M. unfold view in M.
+      replace (b_size b) with 0 in M by lia. exact M.
+  - cbn [m_pop_back contents removelast]. apply (noop_ok h vs v None HI Hv Hs).
+Qed.
 
 (* ---- assignment, construction, destruction --------------------------------- *)
 Lemma opt_eqb_true p q : opt_eqb p q = true -> p = q.
@@ -690,21 +840,22 @@ Proof.
   - rewrite hget_hset_eq by exact Hlt. rewrite Hj. reflexivity.
 Qed.
 
-Lemma assign_ok h vs v p w q :
+Lemma assign_ok c h vs v p w q :
   Inv (mkstate h vs) -> v < length vs -> nth v vs Dead = slot_of p -> nth w vs Dead = slot_of q ->
-  mem_ok h vs v (m_assign h p q) (contents h q).
+  mem_ok h vs v (m_assign c h p q) (contents h q).
 Proof.
   intros HI Hv Hs Hw. unfold m_assign. destruct (opt_eqb p q) eqn:E.
   - apply opt_eqb_true in E. subst q. apply (noop_ok h vs v p HI Hv Hs).
-  - apply opt_eqb_false in E. destruct q as [j|].
+  - apply opt_eqb_false in E. cbv zeta. destruct q as [j|].
     + cbn [slot_of] in Hw. destruct (inv_ptr h vs w j HI Hw) as [bj [Hj _]]. rewrite Hj.
+      apply (leak_detach_ok c h vs v (unref (hset h j (Some (set_ref bj (b_ref bj + 1)))) p, Some j) (contents h (Some j)) Hv).
       pose proof (share_repointed h vs (nth v vs Dead) j bj HI Hj) as R.
       replace (ptr_of (nth v vs Dead)) with p in R by (rewrite Hs; symmetry; apply ptr_of_slot_of).
       specialize (R E (fun i => holders_nth vs v i)).
       destruct (repoint_ok h _ vs v (Ptr j) HI Hv R) as [A B].
       unfold mem_ok. cbn [fst snd slot_of]. split; [exact A|]. rewrite B. cbn [absv].
       rewrite share_contents by assumption. reflexivity.
-    + apply (clear_ok h vs v p HI Hv Hs).
+    + cbn [leaked]. rewrite Bool.andb_false_r. apply (clear_ok h vs v p HI Hv Hs).
 Qed.
 
 Section Construct.
@@ -723,17 +874,21 @@ Proof.
   rewrite Hs in R at 1. cbn [ptr_of unref] in R. exact (repoint_ok h h vs v Null HI Hv R).
 Qed.
 
-Lemma ctor_copy_ok w q : nth w vs Dead = slot_of q ->
-  Inv (mkstate (fst (m_ctor_copy h q)) (upd vs v (slot_of (snd (m_ctor_copy h q))))) /\
-  abs (mkstate (fst (m_ctor_copy h q)) (upd vs v (slot_of (snd (m_ctor_copy h q))))) = upd (abs (mkstate h vs)) v (Some (contents h q)).
+Lemma share_copy_ok w q : nth w vs Dead = slot_of q -> mem_ok h vs v (share_copy h q) (contents h q).
 Proof.
-  intros Hw. unfold m_ctor_copy. destruct q as [j|].
+  intros Hw. unfold mem_ok, share_copy. destruct q as [j|].
   - cbn [slot_of] in Hw. destruct (inv_ptr h vs w j HI Hw) as [bj [Hj _]]. rewrite Hj. cbn [fst snd slot_of].
     pose proof (share_repointed h vs (nth v vs Dead) j bj HI Hj) as R. rewrite Hs in R at 1 2. cbn [ptr_of unref] in R.
     specialize (R (fun e => ltac:(discriminate e)) no_holder_dead).
     destruct (repoint_ok h _ vs v (Ptr j) HI Hv R) as [A B]. split; [exact A|]. rewrite B. cbn [absv].
     pose proof (share_contents h None j bj (b_ref bj + 1) Hj (fun e => ltac:(discriminate e))) as C. cbn [unref] in C. rewrite C. reflexivity.
   - cbn [fst snd slot_of contents]. apply ctor_default_ok.
+Qed.
+
+Lemma ctor_copy_ok c w q : nth w vs Dead = slot_of q -> mem_ok h vs v (m_ctor_copy c h q) (contents h q).
+Proof.
+  intros Hw. unfold m_ctor_copy. pose proof (share_copy_ok w q Hw) as M. destruct (share_copy h q) as [h1 p1].
+  apply (leak_detach_ok c h vs v (h1, p1) (contents h q) Hv M).
 Qed.
 
 Lemma ctor_size_ok size value :
@@ -747,7 +902,7 @@ Proof.
   assert (Hcap : size <= cap).
   { unfold cap. destruct (Nat.eqb_spec size 0); [lia|apply CAPACITY_ge]. }
   rewrite hget_app_new, hset_app_last. cbn [fst snd slot_of].
-  set (nb := set_data (set_size (mkblock 1 0 cap (repeat UNINIT cap)) size) (set_at (b_data (mkblock 1 0 cap (repeat UNINIT cap))) 0 (repeat value size))).
+  set (nb := set_data (set_size (mkblock 1 0 cap (repeat UNINIT cap) false) size) (set_at (b_data (mkblock 1 0 cap (repeat UNINIT cap) false)) 0 (repeat value size))).
   assert (Hnb : b_ref nb = 1 /\ blk_ok nb /\ view nb = repeat value size /\ b_size nb = size).
   { unfold nb, view, blk_ok. cbn [set_data set_size b_ref b_size b_cap b_data]. rewrite set_at_length, repeat_length.
     split; [reflexivity|]. split; [split; [exact Hcap|reflexivity]|]. split; [|reflexivity].
@@ -869,17 +1024,30 @@ Proof. rewrite !upd_upd. reflexivity. Qed.
 
 Lemma from_hex_ok h vs v c str :
   Inv (mkstate h vs) -> v < length vs -> nth v vs Dead = Dead -> c_fix_hex c = true ->
-  Inv (mkstate (fst (m_from_hex c h str)) (upd vs v (slot_of (snd (m_from_hex c h str))))) /\
-  abs (mkstate (fst (m_from_hex c h str)) (upd vs v (slot_of (snd (m_from_hex c h str))))) =
-    upd (abs (mkstate h vs)) v (Some (decoded str)).
+  mem_ok h vs v (m_from_hex c h str) (decoded str).
 Proof.
   intros HI Hv Hs Hc. unfold m_from_hex. set (m := length str / 2).
-  destruct (ctor_size_ok h vs v HI Hv Hs m 0%N) as [HI1 [HA1 [nb [Ep [Hg [Hr [Hok [Hview Hsz]]]]]]]].
-  destruct (m_ctor_size h m 0%N) as [h1 p1]. cbn [fst snd] in *. subst p1. cbn [slot_of] in *.
+  destruct (ctor_size_ok h vs v HI Hv Hs m 0%N) as [HI0 [HA0 [nb0 [Ep [Hg0 [Hr0 [Hok0 [Hview0 Hsz0]]]]]]]].
+  destruct (m_ctor_size h m 0%N) as [h0 p1]. cbn [fst snd] in *. subst p1. cbn [slot_of] in *.
   set (n := length h) in *. set (vs1 := upd vs v (Ptr n)) in *.
   assert (Hv1 : v < length vs1) by (unfold vs1; rewrite upd_length; exact Hv).
   assert (Hn1 : nth v vs1 Dead = Ptr n) by (apply nth_upd_eq, Hv).
-  unfold m_data. rewrite Hg, Hr. cbn [Nat.ltb Nat.leb]. unfold m_size. rewrite Hg, Hsz.
+  (* vec.data(): the block is vec's alone, nothing is detached; the unshare patch marks it *)
+  assert (Ed : m_data c h0 (Some n) = (hset h0 n (Some (markf c nb0)), Some n)).
+  { unfold m_data, mark, on_block. rewrite Hg0, Hr0. cbn [Nat.ltb Nat.leb]. rewrite Hg0. reflexivity. }
+  rewrite Ed. clear Ed.
+  destruct (markf_ok c nb0) as [Mr [Mok [Mview [Msz Mdata]]]].
+  assert (Hr : b_ref (markf c nb0) = 1) by (rewrite Mr; exact Hr0).
+  assert (Hok : blk_ok (markf c nb0)) by (rewrite Mok; exact Hok0).
+  destruct (mutate_ok h0 vs1 v n nb0 (markf c nb0) HI0 Hv1 Hn1 Hg0 Hr0 Hr Hok) as [HI1 HA1'].
+  assert (Hg : hget (hset h0 n (Some (markf c nb0))) n = Some (markf c nb0)) by (apply hget_hset_eq; eapply hget_Some_lt, Hg0).
+  assert (Hview : view (markf c nb0) = repeat 0%N m) by (rewrite Mview; exact Hview0).
+  assert (Hsz : b_size (markf c nb0) = m) by (rewrite Msz; exact Hsz0).
+  assert (HA1 : abs (mkstate (hset h0 n (Some (markf c nb0))) vs1) = upd (abs (mkstate h vs)) v (Some (repeat 0%N m))).
+  { rewrite HA1', HA0. fold (view (markf c nb0)). rewrite Hview. unfold vs1. rewrite upd_upd. reflexivity. }
+  clear HA1' Mr Mok Mview Msz Mdata HI0 HA0 Hg0 Hr0 Hok0 Hview0 Hsz0.
+  set (nb := markf c nb0) in *. set (h1 := hset h0 n (Some nb)) in *. clearbody nb h1. clear nb0 h0.
+  unfold m_size. rewrite Hg, Hsz.
   destruct Hok as [Hsz_le Hlen].
   assert (Hn : length (digits str) / 2 <= m) by (apply Nat.div_le_mono; [lia|apply digits_length_le]).
   pose proof (from_hex_ret (b_data nb) m str) as Hret. pose proof (from_hex_length (b_data nb) m str) as Hml.
@@ -902,7 +1070,10 @@ Proof.
     assert (Er : m_resize c h3 (Some n) k = (on_block h3 (Some n) (resize_block k), Some n)).
     { unfold m_resize, m_reserve. rewrite Hg3. unfold b3 at 1 2 3. cbn [set_data b_ref b_cap]. rewrite Hr.
       destruct (Nat.ltb_spec (b_cap nb) k); [lia|]. cbn [orb Nat.ltb Nat.leb]. destruct (c_fix_resize c); reflexivity. }
-    rewrite Er. cbn [fst snd slot_of].
+    rewrite Er.
+    (* return vec;  copy-constructs the result and destroys vec *)
+    apply (leak_detach_ok c h vs v (on_block h3 (Some n) (resize_block k), Some n) _ Hv).
+    unfold mem_ok. cbn [fst snd slot_of].
     destruct (resize_block_ok k b3 Hok3) as [R1 [R2 R3]]; [unfold b3; cbn [set_data b_cap]; lia|].
     pose proof (inplace_then h3 vs1 v (Some n) HI3 Hv1 Hn1 n b3 (resize_block k) eq_refl Hg3 Hr3 ltac:(lia) R2) as M.
     destruct M as [M1 M2]. cbn [fst snd slot_of] in M1, M2. unfold vs1 in M1, M2 at 1. rewrite upd_upd in M1, M2.
@@ -914,9 +1085,227 @@ Proof.
     rewrite app_nil_r. rewrite firstn_length, app_length, skipn_length, Lp.
     replace (k - Nat.min m (k + (length (b_data nb) - k))) with 0 by lia. cbn [repeat]. apply app_nil_r.
   - (* rejected *)
-    cbn [andb] in Hret. subst result. change ((-1 =? -1)%Z) with true. cbn iota. cbn [fst snd slot_of].
+    cbn [andb] in Hret. subst result. change ((-1 =? -1)%Z) with true. cbn iota. unfold mem_ok. cbn [fst snd slot_of].
     pose proof (clear_ok h3 vs1 v (Some n) HI3 Hv1 Hn1) as [M1 M2]. unfold m_clear in M1, M2. cbn [fst snd slot_of] in M1, M2.
     unfold vs1 in M1, M2 at 1. rewrite upd_upd in M1, M2. split; [exact M1|]. rewrite M2, HA3, HA1, upd3. reflexivity.
+Qed.
+
+(* ---- references and pointers held across other operations ----------------------- *)
+Lemma hget_on_block h k f b : hget h k = Some b -> hget (on_block h (Some k) f) k = Some (f b).
+Proof. intros Hb. unfold on_block. rewrite Hb. apply hget_hset_eq. eapply hget_Some_lt, Hb. Qed.
+
+Lemma nth_view b i : i < b_size b -> nth i (b_data b) UNINIT = nth i (view b) UNINIT.
+Proof. intros H. unfold view. symmetry. apply nth_firstn_lt, H. Qed.
+
+Lemma rd_block h k b i : hget h k = Some b -> i < b_size b -> ref_rd h (Some (k, i)) = nth i (view b) UNINIT.
+Proof. intros Hb Hi. cbn [ref_rd data_at]. rewrite Hb. apply nth_view, Hi. Qed.
+
+Lemma live_block h k b i : hget h k = Some b -> ref_live h (Some (k, i)) = true.
+Proof. intros Hb. cbn [ref_live]. rewrite Hb. reflexivity. Qed.
+
+(* with fixes/C20-subscript-detach.patch: operator[] and pop_back on a block that is v's alone leave it where it is *)
+Lemma index_ref_again c h k b : c_fix_index c = true -> hget h k = Some b -> b_ref b = 1 ->
+  m_index_ref c h (Some k) = (on_block h (Some k) (markf c), Some k).
+Proof. intros Hc Hb Hr. unfold m_index_ref, acc_index, mark. rewrite Hc, Hb, Hr. reflexivity. Qed.
+
+Lemma pop_again c h k b : c_fix_index c = true -> hget h k = Some b -> b_ref b = 1 -> 0 < b_size b ->
+  m_pop_back c h (Some k) = (on_block h (Some k) (fun b => set_size b (b_size b - 1)), Some k).
+Proof.
+  intros Hc Hb Hr Hsz. unfold m_pop_back. rewrite Hb, Hc, Hr. destruct (Nat.ltb_spec 0 (b_size b)); [reflexivity|lia].
+Qed.
+
+Lemma wr_fn_ok pos value l b : b_ref b = 1 -> blk_ok b -> view b = l ->
+  b_ref (set_data b (upd (b_data b) pos value)) = 1 /\ blk_ok (set_data b (upd (b_data b) pos value)) /\
+  view (set_data b (upd (b_data b) pos value)) = upd l pos value.
+Proof. intros Hr Hok Hview. destruct (set_cell_ok pos value b Hok) as [A [B C]]. rewrite A, C, Hview. auto. Qed.
+
+Section Held.
+Variables (h : heap) (vs : list slot) (v : nat) (p : option nat).
+Hypothesis HI : Inv (mkstate h vs).
+Hypothesis Hv : v < length vs.
+Hypothesis Hs : nth v vs Dead = slot_of p.
+
+(* two references taken one after the other are references into the same live block, v's alone *)
+Lemma two_refs c : c_fix_index c = true ->
+  exists h2 k b, m_index_ref c h p = (fst (m_index_ref c h p), Some k) /\
+    m_index_ref c (fst (m_index_ref c h p)) (Some k) = (h2, Some k) /\
+    uniq_ok h vs v (h2, Some k) (contents h p) /\ hget h2 k = Some b /\ b_ref b = 1 /\ blk_ok b /\ view b = contents h p.
+Proof.
+  intros Hc. destruct (index_ref_uniq h vs v p HI Hv Hs c) as [U [k Ek]]. destruct (m_index_ref c h p) as [h1 p1]. cbn [fst snd] in *. subst p1.
+  destruct (proj2 U k eq_refl) as [b [Hb [Hr [Hok Hview]]]]. cbn [fst] in Hb.
+  exists (on_block h1 (Some k) (markf c)), k, (markf c b). split; [reflexivity|]. split; [apply (index_ref_again c h1 k b Hc Hb Hr)|].
+  split; [apply (uniq_mark c h vs v h1 (Some k) _ Hv U)|]. split; [apply hget_on_block, Hb|].
+  destruct (markf_ok c b) as [A [B [C _]]]. rewrite A, B, C. auto.
+Qed.
+
+Lemma set2_ok c i x j y : c_fix_index c = true ->
+  mem_ok h vs v (fst (m_set2 c h p i x j y)) (upd (upd (contents h p) i x) j y) /\ snd (m_set2 c h p i x j y) = RUnit.
+Proof.
+  intros Hc. unfold m_set2. destruct (two_refs c Hc) as [h2 [k [b [E1 [E2 [U [Hb [Hr [Hok Hview]]]]]]]]].
+  rewrite E1, E2. cbn [mkref]. rewrite (live_block h2 k b i Hb), (live_block h2 k b j Hb). cbn [andb fst snd ref_wr].
+  pose proof (uniq_then h vs v h2 (Some k) _ _ _ Hv U (wr_fn_ok i x (contents h p)) ltac:(discriminate)) as U3.
+  pose proof (uniq_then h vs v _ (Some k) _ _ _ Hv U3 (wr_fn_ok j y _) ltac:(discriminate)) as U4.
+  split; [exact (proj1 U4)|reflexivity].
+Qed.
+
+Lemma swap_ok c i j : c_fix_index c = true -> i < length (contents h p) -> j < length (contents h p) ->
+  mem_ok h vs v (fst (m_swap c h p i j)) (upd (upd (contents h p) i (nth j (contents h p) UNINIT)) j (nth i (contents h p) UNINIT)) /\
+  snd (m_swap c h p i j) = RUnit.
+Proof.
+  intros Hc Hi Hj. unfold m_swap. destruct (two_refs c Hc) as [h2 [k [b [E1 [E2 [U [Hb [Hr [Hok Hview]]]]]]]]].
+  rewrite E1, E2. cbn [mkref]. rewrite (live_block h2 k b i Hb), (live_block h2 k b j Hb). cbn [andb].
+  rewrite <- Hview in Hi, Hj. rewrite (view_length b Hok) in Hi, Hj.
+  rewrite (rd_block h2 k b i Hb Hi), (rd_block h2 k b j Hb Hj), Hview. cbn [fst snd ref_wr].
+  pose proof (uniq_then h vs v h2 (Some k) _ _ _ Hv U (wr_fn_ok i (nth j (contents h p) UNINIT) (contents h p)) ltac:(discriminate)) as U3.
+  pose proof (uniq_then h vs v _ (Some k) _ _ _ Hv U3 (wr_fn_ok j (nth i (contents h p) UNINIT) _) ltac:(discriminate)) as U4.
+  split; [exact (proj1 U4)|reflexivity].
+Qed.
+
+Lemma get_held_ok c i j : c_fix_index c = true -> i < length (contents h p) ->
+  mem_ok h vs v (fst (m_get_held c h p i j)) (contents h p) /\ snd (m_get_held c h p i j) = RByte (nth i (contents h p) UNINIT).
+Proof.
+  intros Hc Hi. unfold m_get_held. destruct (two_refs c Hc) as [h2 [k [b [E1 [E2 [U [Hb [Hr [Hok Hview]]]]]]]]].
+  rewrite E1, E2. cbn [mkref]. rewrite (live_block h2 k b _ Hb).
+  rewrite <- Hview in Hi. rewrite (view_length b Hok) in Hi. rewrite (rd_block h2 k b i Hb Hi), Hview. cbn [fst snd].
+  split; [exact (proj1 U)|reflexivity].
+Qed.
+
+Lemma held_pop_ok c i : c_fix_index c = true -> i + 1 < length (contents h p) ->
+  mem_ok h vs v (fst (m_held_pop c h p i)) (removelast (contents h p)) /\ snd (m_held_pop c h p i) = RByte (nth i (contents h p) UNINIT).
+Proof.
+  intros Hc Hi. unfold m_held_pop.
+  destruct (index_ref_uniq h vs v p HI Hv Hs c) as [U [k Ek]]. destruct (m_index_ref c h p) as [h1 p1]. cbn [fst snd] in *. subst p1.
+  destruct (proj2 U k eq_refl) as [b [Hb [Hr [Hok Hview]]]]. cbn [fst] in Hb.
+  rewrite <- Hview in Hi. rewrite (view_length b Hok) in Hi.
+  rewrite (pop_again c h1 k b Hc Hb Hr ltac:(lia)). cbn [mkref].
+  set (f := fun b0 : block => set_size b0 (b_size b0 - 1)).
+  pose proof (hget_on_block h1 k f b Hb) as Hb2. rewrite (live_block _ k _ _ Hb2).
+  assert (U2 : uniq_ok h vs v (on_block h1 (Some k) f, Some k) (removelast (contents h p))).
+  { apply (uniq_then h vs v h1 (Some k) (contents h p)); [exact Hv|exact U| |discriminate].
+    intros nb Hr' Hok' Hview'. assert (b_size nb = b_size b) by (rewrite <- (view_length nb Hok'), Hview', <- Hview; apply view_length, Hok).
+    destruct (pop_block_ok nb Hok') as [A [B C]]; [lia|]. unfold f. rewrite A, C, Hview'. auto. }
+  cbn [ref_rd data_at]. rewrite Hb2. change (b_data (f b)) with (b_data b). rewrite (nth_view b i) by lia. rewrite Hview. cbn [fst snd].
+  split; [exact (proj1 U2)|reflexivity].
+Qed.
+
+Lemma data_leaked c : c_fix_leak c = true -> forall k, snd (m_data c h p) = Some k -> leaked (fst (m_data c h p)) (Some k) = true.
+Proof.
+  intros Hc k Ek. pose proof (data_uniq h vs v p HI Hv Hs c) as [_ HU]. destruct (HU k Ek) as [b' [Hb' _]].
+  unfold leaked. rewrite Hb'. revert Ek Hb'. unfold m_data. destruct p as [i|]; [|discriminate].
+  destruct (p_block h vs v (Some i) HI Hs i eq_refl) as [b [Hb _]]. rewrite Hb.
+  destruct (if 1 <? b_ref b then detach h (Some i) 0 else (h, Some i)) as [h1 p1]. cbn [fst snd]. intros E Hb'. subst p1.
+  unfold mark, on_block in Hb'. destruct (hget h1 k) as [b1|] eqn:Hb1.
+  - rewrite hget_hset_eq in Hb' by (eapply hget_Some_lt, Hb1). inversion Hb'. unfold markf. rewrite Hc. reflexivity.
+  - rewrite Hb1 in Hb'. discriminate Hb'.
+Qed.
+
+Lemma cdata_held_ok c i j value : c_fix_index c = true -> c_fix_leak c = true -> i < length (contents h p) ->
+  mem_ok h vs v (fst (m_cdata_held c h p i j value)) (upd (contents h p) j value) /\
+  snd (m_cdata_held c h p i j value) = RByte (nth i (upd (contents h p) j value) UNINIT).
+Proof.
+  intros Hc Hl Hi. unfold m_cdata_held, m_data_c. rewrite Hl.
+  assert (Hp : p <> None) by (intros E; rewrite E in Hi; cbn [contents length] in Hi; lia).
+  destruct (data_some h vs v p HI Hs c Hp) as [k Ek]. pose proof (data_uniq h vs v p HI Hv Hs c) as U.
+  destruct (m_data c h p) as [h1 p1]. cbn [fst snd] in *. subst p1.
+  destruct (proj2 U k eq_refl) as [b [Hb [Hr [Hok Hview]]]]. cbn [fst] in Hb.
+  unfold m_index_set. rewrite (index_ref_again c h1 k b Hc Hb Hr). cbn [mkref].
+  pose proof (uniq_mark c h vs v h1 (Some k) _ Hv U) as U2. unfold mark in U2.
+  pose proof (uniq_then h vs v _ (Some k) _ _ _ Hv U2 (wr_fn_ok j value (contents h p)) ltac:(discriminate)) as U3.
+  destruct (proj2 U3 k eq_refl) as [b3 [Hb3 [Hr3 [Hok3 Hview3]]]]. cbn [fst] in Hb3.
+  rewrite (live_block _ k b3 _ Hb3).
+  assert (Hi3 : i < b_size b3) by (rewrite <- (view_length b3 Hok3), Hview3, upd_length; exact Hi).
+  rewrite (rd_block _ k b3 i Hb3 Hi3), Hview3. cbn [fst snd]. split; [exact (proj1 U3)|reflexivity].
+Qed.
+End Held.
+
+(* ---- a data() pointer held while the array is copied --------------------------- *)
+Lemma upd_comm {A} (l : list A) : forall v w x y, v <> w -> upd (upd l v x) w y = upd (upd l w y) v x.
+Proof.
+  induction l as [|a l IH]; intros [|v] [|w] x y H; cbn [upd]; try reflexivity; try lia. rewrite IH by lia. reflexivity.
+Qed.
+
+(* a write through a reference into the block that v alone holds *)
+Lemma write_unique h vs v k l pos value :
+  Inv (mkstate h vs) -> v < length vs -> nth v vs Dead = Ptr k -> holders vs k = 1 -> vvar (abs (mkstate h vs)) v = Some l ->
+  ref_live h (Some (k, pos)) = true /\
+  Inv (mkstate (ref_wr h (Some (k, pos)) value) vs) /\
+  abs (mkstate (ref_wr h (Some (k, pos)) value) vs) = upd (abs (mkstate h vs)) v (Some (upd l pos value)).
+Proof.
+  intros HI Hv Hn Hh Hl. destruct (inv_ptr h vs v k HI Hn) as [b [Hb [Hr [H1 Hok]]]].
+  assert (Hview : view b = l).
+  { rewrite vvar_abs in Hl. unfold var in Hl. cbn [heap_of vars_of] in Hl. rewrite Hn in Hl. cbn [absv] in Hl.
+    unfold contents in Hl. rewrite Hb in Hl. inversion Hl. reflexivity. }
+  cbn [ref_live ref_wr]. unfold on_block. rewrite Hb.
+  destruct (set_cell_ok pos value b Hok) as [A [B C]].
+  destruct (mutate_ok h vs v k b _ HI Hv Hn Hb ltac:(lia) ltac:(rewrite A; lia) B) as [I2 A2].
+  split; [reflexivity|]. split; [exact I2|]. rewrite A2. unfold view in C, Hview. rewrite C, Hview. reflexivity.
+Qed.
+
+(* v alone holds block k; a member function is run on another variable w and leaves w pointing
+   elsewhere; then a held pointer into block k is written through *)
+Lemma held_write_after h1 vs1 v w k l res2 l2 pos value :
+  Inv (mkstate h1 vs1) -> v < length vs1 -> w < length vs1 -> v <> w -> nth v vs1 Dead = Ptr k ->
+  holders vs1 k = 1 -> vvar (abs (mkstate h1 vs1)) v = Some l ->
+  mem_ok h1 vs1 w res2 l2 -> snd res2 <> Some k ->
+  ref_live (fst res2) (Some (k, pos)) = true /\
+  Inv (mkstate (ref_wr (fst res2) (Some (k, pos)) value) (upd vs1 w (slot_of (snd res2)))) /\
+  abs (mkstate (ref_wr (fst res2) (Some (k, pos)) value) (upd vs1 w (slot_of (snd res2)))) =
+    upd (upd (abs (mkstate h1 vs1)) w (Some l2)) v (Some (upd l pos value)).
+Proof.
+  intros HI Hv Hw Hne Hn Hh Hl [I2 A2] Hq.
+  set (vs2 := upd vs1 w (slot_of (snd res2))) in *.
+  assert (Hv2 : v < length vs2) by (unfold vs2; rewrite upd_length; exact Hv).
+  assert (Hn2 : nth v vs2 Dead = Ptr k) by (unfold vs2; rewrite nth_upd_neq by exact Hne; exact Hn).
+  assert (Hh2 : holders vs2 k = 1).
+  { pose proof (holders_upd vs1 w (slot_of (snd res2)) k Hw) as HU. fold vs2 in HU.
+    assert (isP (nth w vs1 Dead) k = 0).
+    { pose proof (isP_le1 (nth w vs1 Dead) k). destruct (Nat.eq_dec (isP (nth w vs1 Dead) k) 1) as [E|E]; [|lia].
+      apply isP_1 in E. pose proof (holders_two vs1 v w k Hne Hn E). lia. }
+    assert (isP (slot_of (snd res2)) k = 0).
+    { destruct (snd res2) as [j|]; [|reflexivity]. cbn [slot_of]. rewrite isP_Ptr. destruct (Nat.eqb_spec j k); [congruence|reflexivity]. }
+    lia. }
+  assert (Hl2 : vvar (abs (mkstate (fst res2) vs2)) v = Some l).
+  { rewrite A2. unfold vvar. rewrite nth_upd_neq by exact Hne. exact Hl. }
+  destruct (write_unique (fst res2) vs2 v k l pos value I2 Hv2 Hn2 Hh2 Hl2) as [L [I3 A3]].
+  split; [exact L|]. split; [exact I3|]. rewrite A3, A2. reflexivity.
+Qed.
+
+(* after data() with the unshare patch: v alone holds its block, which is marked *)
+Lemma data_state c h vs v p : Inv (mkstate h vs) -> v < length vs -> nth v vs Dead = slot_of p -> p <> None ->
+  exists k b, snd (m_data c h p) = Some k /\ hget (fst (m_data c h p)) k = Some b /\
+    Inv (mkstate (fst (m_data c h p)) (upd vs v (Ptr k))) /\
+    abs (mkstate (fst (m_data c h p)) (upd vs v (Ptr k))) = abs (mkstate h vs) /\
+    holders (upd vs v (Ptr k)) k = 1 /\ k < length (fst (m_data c h p)) /\
+    (c_fix_leak c = true -> b_leak b = true).
+Proof.
+  intros HI Hv Hs Hp. destruct (data_some h vs v p HI Hs c Hp) as [k Ek]. pose proof (data_uniq h vs v p HI Hv Hs c) as [[I1 A1] HU].
+  pose proof (data_leaked h vs v p HI Hv Hs c) as HL. destruct (m_data c h p) as [h1 p1]. cbn [fst snd] in *. subst p1. cbn [slot_of] in *.
+  destruct (HU k eq_refl) as [b [Hb [Hr [Hok Hview]]]]. exists k, b. split; [reflexivity|]. split; [exact Hb|]. split; [exact I1|].
+  split; [|split; [|split]].
+  - rewrite A1. apply (upd_nth_same _ _ _ None); [rewrite abs_length; exact Hv|apply (abs_v h vs v p Hs)].
+  - pose proof (I1 k) as Hk. cbn [heap_of vars_of] in Hk. rewrite Hb in Hk. lia.
+  - eapply hget_Some_lt, Hb.
+  - intros Hc. specialize (HL Hc k eq_refl). unfold leaked in HL. rewrite Hb in HL. exact HL.
+Qed.
+
+Lemma ctor_copy_leaked_snd c h k b : c_fix_leak c = true -> hget h k = Some b -> b_leak b = true ->
+  snd (m_ctor_copy c h (Some k)) = Some (length h).
+Proof.
+  intros Hc Hb Hl. pose proof (hget_Some_lt _ _ _ Hb) as Hlt. unfold m_ctor_copy, share_copy. rewrite Hb, Hc. unfold leaked.
+  rewrite hget_hset_eq by exact Hlt. cbn [set_ref b_leak]. rewrite Hl. cbn [andb]. rewrite detach_snd, hset_length. reflexivity.
+Qed.
+
+Lemma assign_leaked_snd c h pw k b : c_fix_leak c = true -> hget h k = Some b -> b_leak b = true -> pw <> Some k ->
+  snd (m_assign c h pw (Some k)) = Some (length h).
+Proof.
+  intros Hc Hb Hl Hne. pose proof (hget_Some_lt _ _ _ Hb) as Hlt. unfold m_assign.
+  destruct (opt_eqb pw (Some k)) eqn:E; [apply opt_eqb_true in E; congruence|]. rewrite Hb, Hc. cbv zeta. unfold leaked.
+  rewrite hget_unref. assert (Hk : hget (hset h k (Some (set_ref b (b_ref b + 1)))) k = Some (set_ref b (b_ref b + 1))) by (apply hget_hset_eq, Hlt).
+  destruct pw as [j|].
+  - destruct (Nat.eqb_spec k j); [congruence|]. rewrite Hk. cbn [set_ref b_leak]. rewrite Hl. cbn [andb].
+    rewrite detach_snd. unfold unref. destruct (hget (hset h k (Some (set_ref b (b_ref b + 1)))) j) as [bj|]; [|apply f_equal, hset_length].
+    destruct (b_ref bj - 1 =? 0); rewrite !hset_length; reflexivity.
+  - rewrite Hk. cbn [set_ref b_leak]. rewrite Hl. cbn [andb]. rewrite detach_snd. cbn [unref]. rewrite hset_length. reflexivity.
 Qed.
 
 (* ---- one operation ------------------------------------------------------------ *)
@@ -978,7 +1367,8 @@ Theorem step_refines c st o :
   Inv st -> op_pre (abs st) o = true -> op_safe c o = true -> refines1 c st o.
 Proof.
   destruct st as [h vs]. intros HI Hpre Hsafe. unfold refines1.
-  destruct o as [v|v w|v n value|v str|v|v w|v pos value|v pos|v pos|v|v|v|v|v pos value|v|v n|v n|v|v value|v|o v w];
+  destruct o as [v|v w|v n value|v str|v|v w|v pos value|v pos|v pos|v|v|v|v|v pos value|v|v n|v n|v|v value|v|o v w
+                |v i x j y|v i j|v i j|v i j|v i|v w pos value|v w pos value|v i j value];
     cbn [op_pre] in Hpre; fold (vlive (abs (mkstate h vs))) in Hpre; cbn [step vec_step].
   - (* OCtor *)
     destruct (dead_facts h vs v Hpre) as [Hv [Hs Hvv]]. unfold var. cbn [heap_of vars_of]. rewrite Hs, Hvv. cbn [alive].
@@ -989,7 +1379,7 @@ Proof.
     destruct (live_facts h vs w Hl) as [Hw [Haw [Hsw Hvw]]].
     unfold var. cbn [heap_of vars_of]. rewrite Hs, Hvv, Hvw, Haw. cbn [alive orb negb].
     unfold construct, put. cbn [fst snd heap_of vars_of].
-    destruct (ctor_copy_ok h vs v HI Hv Hs w _ Hsw) as [A B]. split; [exact B|]. split; [apply agree_refl|exact A].
+    destruct (ctor_copy_ok h vs v HI Hv Hs c w _ Hsw) as [A B]. split; [exact B|]. split; [apply agree_refl|exact A].
   - (* OCtorSize *)
     destruct (dead_facts h vs v Hpre) as [Hv [Hs Hvv]]. unfold var. cbn [heap_of vars_of]. rewrite Hs, Hvv. cbn [alive].
     unfold construct, put. cbn [fst snd heap_of vars_of]. destruct (ctor_size_ok h vs v HI Hv Hs n value) as [A [B _]].
@@ -1005,23 +1395,23 @@ Proof.
     apply andb_true_iff in Hpre. destruct Hpre as [Hl Hlw]. destruct (live_facts h vs w Hlw) as [Hw [Haw [Hsw Hvw]]].
     destruct (live_facts h vs v Hl) as [Hv [Ha [Hs Hvv]]].
     change (var (mkstate h vs) w) with (nth w vs Dead). rewrite Haw, Hvw. apply member_refines; [exact Hl|]. cbn zeta. cbn [fst snd].
-    split; [|apply agree_refl]. apply (assign_ok h vs v _ w _ HI Hv Hs Hsw).
+    split; [|apply agree_refl]. apply (assign_ok c h vs v _ w _ HI Hv Hs Hsw).
   - (* OSet *)
     assert (Hl : vlive (abs (mkstate h vs)) v = true) by (unfold vlive; destruct (vvar (abs (mkstate h vs)) v); [reflexivity|discriminate Hpre]).
     destruct (live_facts h vs v Hl) as [Hv [Ha [Hs Hvv]]].
-    apply member_refines; [exact Hl|]. cbn zeta. cbn [fst snd]. split; [|apply agree_refl]. apply (index_set_ok h vs v _ HI Hv Hs).
+    apply member_refines; [exact Hl|]. cbn zeta. cbn [fst snd]. split; [|apply agree_refl]. apply (index_set_ok h vs v _ HI Hv Hs c).
   - (* OGet *)
     assert (Hl : vlive (abs (mkstate h vs)) v = true) by (unfold vlive; destruct (vvar (abs (mkstate h vs)) v); [reflexivity|discriminate Hpre]).
     destruct (live_facts h vs v Hl) as [Hv [Ha [Hs Hvv]]]. rewrite Hvv in Hpre. apply Nat.ltb_lt in Hpre.
     apply member_refines; [exact Hl|]. cbn zeta.
-    destruct (index_get_ok h vs v _ HI Hv Hs pos) as [A B]. specialize (B Hpre).
-    destruct (m_index_get h (ptr_of (nth v vs Dead)) pos) as [[h' p'] x]. cbn [fst snd] in *. split; [exact A|]. right. rewrite B. reflexivity.
+    destruct (index_get_ok h vs v _ HI Hv Hs c pos) as [A B]. specialize (B Hpre).
+    destruct (m_index_get c h (ptr_of (nth v vs Dead)) pos) as [[h' p'] x]. cbn [fst snd] in *. split; [exact A|]. right. rewrite B. reflexivity.
   - (* OGetC *)
     assert (Hl : vlive (abs (mkstate h vs)) v = true) by (unfold vlive; destruct (vvar (abs (mkstate h vs)) v); [reflexivity|discriminate Hpre]).
     destruct (live_facts h vs v Hl) as [Hv [Ha [Hs Hvv]]]. rewrite Hvv in Hpre. apply Nat.ltb_lt in Hpre.
     apply member_refines; [exact Hl|]. cbn zeta.
-    destruct (index_get_ok h vs v _ HI Hv Hs pos) as [A B]. specialize (B Hpre).
-    destruct (m_index_get h (ptr_of (nth v vs Dead)) pos) as [[h' p'] x]. cbn [fst snd] in *. split; [exact A|]. right. rewrite B. reflexivity.
+    destruct (index_get_ok h vs v _ HI Hv Hs c pos) as [A B]. specialize (B Hpre).
+    destruct (m_index_get c h (ptr_of (nth v vs Dead)) pos) as [[h' p'] x]. cbn [fst snd] in *. split; [exact A|]. right. rewrite B. reflexivity.
   - (* OSize *)
     destruct (live_facts h vs v Hpre) as [Hv [Ha [Hs Hvv]]]. apply member_refines; [exact Hpre|]. cbn zeta. cbn [fst snd].
     split; [apply (noop_ok h vs v _ HI Hv Hs)|]. right. f_equal. apply m_size_contents. apply (blocks_of_inv h vs v HI).
@@ -1035,16 +1425,17 @@ Proof.
     destruct (ptr_of (nth v vs Dead)) as [i|]; [|reflexivity]. destruct (hget h i); reflexivity.
   - (* OData *)
     destruct (live_facts h vs v Hpre) as [Hv [Ha [Hs Hvv]]]. apply member_refines; [exact Hpre|]. cbn zeta.
-    destruct (data_ok h vs v _ HI Hv Hs) as [A B]. destruct (m_data h (ptr_of (nth v vs Dead))) as [h' p']. cbn [fst snd] in *.
+    destruct (data_ok h vs v _ HI Hv Hs c) as [A B]. destruct (m_data c h (ptr_of (nth v vs Dead))) as [h' p']. cbn [fst snd] in *.
     split; [exact A|]. right. rewrite B. reflexivity.
   - (* ODataSet *)
     assert (Hl : vlive (abs (mkstate h vs)) v = true) by (unfold vlive; destruct (vvar (abs (mkstate h vs)) v); [reflexivity|discriminate Hpre]).
     destruct (live_facts h vs v Hl) as [Hv [Ha [Hs Hvv]]]. apply member_refines; [exact Hl|]. cbn zeta.
-    pose proof (data_set_ok h vs v _ HI Hv Hs pos value) as A. destruct (m_data h (ptr_of (nth v vs Dead))) as [h' p']. cbn [fst snd] in *.
+    pose proof (data_set_ok h vs v _ HI Hv Hs c pos value) as A. destruct (m_data c h (ptr_of (nth v vs Dead))) as [h' p']. cbn [fst snd] in *.
     split; [exact A|apply agree_refl].
   - (* ODataC *)
-    destruct (live_facts h vs v Hpre) as [Hv [Ha [Hs Hvv]]]. apply member_refines; [exact Hpre|]. cbn zeta. cbn [fst snd].
-    split; [apply (noop_ok h vs v _ HI Hv Hs)|apply agree_refl].
+    destruct (live_facts h vs v Hpre) as [Hv [Ha [Hs Hvv]]]. apply member_refines; [exact Hpre|]. cbn zeta.
+    destruct (data_c_ok h vs v _ HI Hv Hs c) as [A B]. destruct (m_data_c c h (ptr_of (nth v vs Dead))) as [h' p']. cbn [fst snd] in *.
+    split; [exact A|]. right. rewrite B. reflexivity.
   - (* OReserve *)
     destruct (live_facts h vs v Hpre) as [Hv [Ha [Hs Hvv]]]. apply member_refines; [exact Hpre|]. cbn zeta. cbn [fst snd].
     split; [apply (reserve_ok h vs v _ HI Hv Hs)|apply agree_refl].
@@ -1059,7 +1450,7 @@ Proof.
     split; [apply (push_ok h vs v _ HI Hv Hs)|apply agree_refl].
   - (* OPop *)
     destruct (live_facts h vs v Hpre) as [Hv [Ha [Hs Hvv]]]. apply member_refines; [exact Hpre|]. cbn zeta. cbn [fst snd].
-    split; [apply (pop_ok h vs v _ HI Hv Hs)|apply agree_refl].
+    split; [apply (pop_ok h vs v _ c HI Hv Hs)|apply agree_refl].
   - (* OCmp *)
     apply andb_true_iff in Hpre. destruct Hpre as [Hl Hlw]. destruct (live_facts h vs w Hlw) as [Hw [Haw [Hsw Hvw]]].
     destruct (live_facts h vs v Hl) as [Hv [Ha [Hs Hvv]]].
@@ -1067,6 +1458,104 @@ Proof.
     split; [apply (noop_ok h vs v _ HI Hv Hs)|]. right. f_equal.
     apply cmp_ok; [apply (blocks_of_inv h vs v HI)|apply (blocks_of_inv h vs w HI)|].
     destruct o; exact Hsafe.
+  - (* OSet2 *)
+    apply andb_true_iff in Hpre. destruct Hpre as [Hi Hj].
+    assert (Hl : vlive (abs (mkstate h vs)) v = true) by (unfold vlive; destruct (vvar (abs (mkstate h vs)) v); [reflexivity|discriminate Hi]).
+    destruct (live_facts h vs v Hl) as [Hv [Ha [Hs Hvv]]]. cbn [op_safe] in Hsafe.
+    apply member_refines; [exact Hl|]. cbn zeta.
+    destruct (set2_ok h vs v _ HI Hv Hs c i x j y Hsafe) as [A B]. split; [exact A|rewrite B; apply agree_refl].
+  - (* OSwap *)
+    apply andb_true_iff in Hpre. destruct Hpre as [Hi Hj].
+    assert (Hl : vlive (abs (mkstate h vs)) v = true) by (unfold vlive; destruct (vvar (abs (mkstate h vs)) v); [reflexivity|discriminate Hi]).
+    destruct (live_facts h vs v Hl) as [Hv [Ha [Hs Hvv]]]. rewrite Hvv in Hi, Hj. apply Nat.ltb_lt in Hi, Hj. cbn [op_safe] in Hsafe.
+    apply member_refines; [exact Hl|]. cbn zeta.
+    destruct (swap_ok h vs v _ HI Hv Hs c i j Hsafe Hi Hj) as [A B]. split; [exact A|rewrite B; apply agree_refl].
+  - (* OGetHeld *)
+    apply andb_true_iff in Hpre. destruct Hpre as [Hi Hj].
+    assert (Hl : vlive (abs (mkstate h vs)) v = true) by (unfold vlive; destruct (vvar (abs (mkstate h vs)) v); [reflexivity|discriminate Hi]).
+    destruct (live_facts h vs v Hl) as [Hv [Ha [Hs Hvv]]]. rewrite Hvv in Hi. apply Nat.ltb_lt in Hi. cbn [op_safe] in Hsafe.
+    apply member_refines; [exact Hl|]. cbn zeta.
+    destruct (get_held_ok h vs v _ HI Hv Hs c i j Hsafe Hi) as [A B]. split; [exact A|rewrite B; apply agree_refl].
+  - (* OGetHeldC *)
+    apply andb_true_iff in Hpre. destruct Hpre as [Hi Hj].
+    assert (Hl : vlive (abs (mkstate h vs)) v = true) by (unfold vlive; destruct (vvar (abs (mkstate h vs)) v); [reflexivity|discriminate Hi]).
+    destruct (live_facts h vs v Hl) as [Hv [Ha [Hs Hvv]]]. rewrite Hvv in Hi. apply Nat.ltb_lt in Hi. cbn [op_safe] in Hsafe.
+    apply member_refines; [exact Hl|]. cbn zeta.
+    destruct (get_held_ok h vs v _ HI Hv Hs c i j Hsafe Hi) as [A B]. split; [exact A|rewrite B; apply agree_refl].
+  - (* OHeldPop *)
+    assert (Hl : vlive (abs (mkstate h vs)) v = true) by (unfold vlive; destruct (vvar (abs (mkstate h vs)) v); [reflexivity|discriminate Hpre]).
+    destruct (live_facts h vs v Hl) as [Hv [Ha [Hs Hvv]]]. rewrite Hvv in Hpre. apply Nat.ltb_lt in Hpre. cbn [op_safe] in Hsafe.
+    apply member_refines; [exact Hl|]. cbn zeta.
+    destruct (held_pop_ok h vs v _ HI Hv Hs c i Hsafe Hpre) as [A B]. split; [exact A|rewrite B; apply agree_refl].
+  - (* ODataHeldCopy *)
+    apply andb_true_iff in Hpre. destruct Hpre as [Hi Hd]. cbn [op_safe] in Hsafe.
+    assert (Hl : vlive (abs (mkstate h vs)) v = true) by (unfold vlive; destruct (vvar (abs (mkstate h vs)) v); [reflexivity|discriminate Hi]).
+    destruct (live_facts h vs v Hl) as [Hv [Ha [Hs Hvv]]]. destruct (dead_facts h vs w Hd) as [Hw [Hsw Hvw]].
+    rewrite Hvv in Hi. apply Nat.ltb_lt in Hi.
+    unfold var. cbn [heap_of vars_of]. rewrite Ha, Hsw, Hvv, Hvw. cbn [alive andb negb].
+    set (p := ptr_of (nth v vs Dead)) in *.
+    assert (Hp : p <> None) by (intros E; rewrite E in Hi; cbn [contents length] in Hi; lia).
+    assert (Hne : v <> w) by (intros E; subst w; rewrite Hsw in Ha; discriminate Ha).
+    destruct (data_state c h vs v p HI Hv Hs Hp) as [k [b [Ek [Hb [I1 [A1 [Hh1 [Hk Hleak]]]]]]]].
+    destruct (m_data c h p) as [h1 p1]. cbn [fst snd] in *. subst p1. cbn [slot_of].
+    set (vs1 := upd vs v (Ptr k)) in *.
+    assert (Hv1 : v < length vs1) by (unfold vs1; rewrite upd_length; exact Hv).
+    assert (Hw1 : w < length vs1) by (unfold vs1; rewrite upd_length; exact Hw).
+    assert (Hn1 : nth v vs1 Dead = Ptr k) by (apply nth_upd_eq, Hv).
+    assert (Hsw1 : nth w vs1 Dead = Dead) by (unfold vs1; rewrite nth_upd_neq by (intros E; apply Hne; symmetry; exact E); exact Hsw).
+    assert (Hl1 : vvar (abs (mkstate h1 vs1)) v = Some (contents h p)) by (rewrite A1; exact Hvv).
+    assert (Hc1 : contents h1 (Some k) = contents h p).
+    { rewrite vvar_abs in Hl1. unfold var in Hl1. cbn [heap_of vars_of] in Hl1. rewrite Hn1 in Hl1. cbn [absv] in Hl1. inversion Hl1. reflexivity. }
+    pose proof (ctor_copy_ok h1 vs1 w I1 Hw1 Hsw1 c v (Some k) Hn1) as M2.
+    pose proof (ctor_copy_leaked_snd c h1 k b Hsafe Hb (Hleak Hsafe)) as Eq.
+    destruct (m_ctor_copy c h1 (Some k)) as [h2 q]. cbn [snd] in Eq. subst q.
+    destruct (held_write_after h1 vs1 v w k (contents h p) (h2, Some (length h1)) _ pos value I1 Hv1 Hw1 Hne Hn1 Hh1 Hl1 M2) as [L [I3 A3]].
+    { cbn [snd]. intros E. inversion E. lia. }
+    cbn [fst snd slot_of mkref] in *. rewrite L. cbn [fst snd]. split; [|split; [apply agree_refl|exact I3]].
+    rewrite A3, A1, Hc1. reflexivity.
+  - (* ODataHeldAssign *)
+    apply andb_true_iff in Hpre. destruct Hpre as [Hi Hlw]. cbn [op_safe] in Hsafe.
+    assert (Hl : vlive (abs (mkstate h vs)) v = true) by (unfold vlive; destruct (vvar (abs (mkstate h vs)) v); [reflexivity|discriminate Hi]).
+    destruct (live_facts h vs v Hl) as [Hv [Ha [Hs Hvv]]]. destruct (live_facts h vs w Hlw) as [Hw [Haw [Hsw Hvw]]].
+    rewrite Hvv in Hi. apply Nat.ltb_lt in Hi.
+    unfold var. cbn [heap_of vars_of]. rewrite Ha, Haw, Hvv, Hvw. cbn [andb].
+    set (p := ptr_of (nth v vs Dead)) in *.
+    assert (Hp : p <> None) by (intros E; rewrite E in Hi; cbn [contents length] in Hi; lia).
+    destruct (data_state c h vs v p HI Hv Hs Hp) as [k [b [Ek [Hb [I1 [A1 [Hh1 [Hk Hleak]]]]]]]].
+    destruct (m_data c h p) as [h1 p1]. cbn [fst snd] in *. subst p1. cbn [slot_of].
+    set (vs1 := upd vs v (Ptr k)) in *.
+    assert (Hv1 : v < length vs1) by (unfold vs1; rewrite upd_length; exact Hv).
+    assert (Hw1 : w < length vs1) by (unfold vs1; rewrite upd_length; exact Hw).
+    assert (Hn1 : nth v vs1 Dead = Ptr k) by (apply nth_upd_eq, Hv).
+    assert (Hl1 : vvar (abs (mkstate h1 vs1)) v = Some (contents h p)) by (rewrite A1; exact Hvv).
+    assert (Hc1 : contents h1 (Some k) = contents h p).
+    { rewrite vvar_abs in Hl1. unfold var in Hl1. cbn [heap_of vars_of] in Hl1. rewrite Hn1 in Hl1. cbn [absv] in Hl1. inversion Hl1. reflexivity. }
+    destruct (Nat.eq_dec v w) as [E|Hne].
+    + (* w = v: self-assignment, nothing happens *)
+      subst w. rewrite Hn1. cbn [ptr_of]. unfold m_assign. cbn [opt_eqb]. rewrite Nat.eqb_refl. cbn [slot_of mkref].
+      assert (Evs : upd vs1 v (Ptr k) = vs1) by (apply (upd_nth_same vs1 v (Ptr k) Dead Hv1 Hn1)). rewrite Evs.
+      destruct (write_unique h1 vs1 v k (contents h p) pos value I1 Hv1 Hn1 Hh1 Hl1) as [L [I3 A3]].
+      rewrite L. cbn [fst snd]. split; [|split; [apply agree_refl|exact I3]]. rewrite A3, A1, upd_upd. reflexivity.
+    + assert (Hsw1 : nth w vs1 Dead = slot_of (ptr_of (nth w vs Dead))).
+      { unfold vs1. rewrite nth_upd_neq by (intros E; apply Hne; symmetry; exact E). exact Hsw. }
+      assert (Ew : nth w vs1 Dead = nth w vs Dead) by (unfold vs1; apply nth_upd_neq; intros E; apply Hne; symmetry; exact E).
+      rewrite Ew. set (pw := ptr_of (nth w vs Dead)) in *.
+      assert (Hpw : pw <> Some k).
+      { intros E. rewrite E in Hsw1. cbn [slot_of] in Hsw1. pose proof (holders_two vs1 v w k Hne Hn1 Hsw1). lia. }
+      pose proof (assign_ok c h1 vs1 w pw v (Some k) I1 Hw1 Hsw1 Hn1) as M2.
+      pose proof (assign_leaked_snd c h1 pw k b Hsafe Hb (Hleak Hsafe) Hpw) as Eq.
+      destruct (m_assign c h1 pw (Some k)) as [h2 q]. cbn [snd] in Eq. subst q.
+      destruct (held_write_after h1 vs1 v w k (contents h p) (h2, Some (length h1)) _ pos value I1 Hv1 Hw1 Hne Hn1 Hh1 Hl1 M2) as [L [I3 A3]].
+      { cbn [snd]. intros E. inversion E. lia. }
+      cbn [fst snd slot_of mkref] in *. rewrite L. cbn [fst snd]. split; [|split; [apply agree_refl|exact I3]].
+      rewrite A3, A1, Hc1. reflexivity.
+  - (* OCDataHeld *)
+    apply andb_true_iff in Hpre. destruct Hpre as [Hi Hj].
+    assert (Hl : vlive (abs (mkstate h vs)) v = true) by (unfold vlive; destruct (vvar (abs (mkstate h vs)) v); [reflexivity|discriminate Hi]).
+    destruct (live_facts h vs v Hl) as [Hv [Ha [Hs Hvv]]]. rewrite Hvv in Hi. apply Nat.ltb_lt in Hi. cbn [op_safe] in Hsafe.
+    apply andb_true_iff in Hsafe. destruct Hsafe as [Hs1 Hs2].
+    apply member_refines; [exact Hl|]. cbn zeta.
+    destruct (cdata_held_ok h vs v _ HI Hv Hs c i j value Hs1 Hs2 Hi) as [A B]. split; [exact A|rewrite B; apply agree_refl].
 Qed.
 
 (* ---- every sequence of operations ---------------------------------------------- *)
@@ -1096,7 +1585,7 @@ Proof.
 Qed.
 
 Lemma all_safe_fixed ops : forallb (op_safe cfg_fixed) ops = true.
-Proof. induction ops as [|o ops IH]; cbn [forallb]; [reflexivity|]. rewrite IH. destruct o as [| | | | | | | | | | | | | | | | | | | |[] ? ?]; reflexivity. Qed.
+Proof. induction ops as [|o ops IH]; cbn [forallb]; [reflexivity|]. rewrite IH. destruct o as [| | | | | | | | | | | | | | | | | | | |[] ? ?| | | | | | | |]; reflexivity. Qed.
 
 (* size() <= capacity() always, and reserve(n) leaves capacity() >= n *)
 Lemma capacity_ge_size st v : Inv st -> m_size (heap_of st) (ptr_of (var st v)) <= m_capacity (heap_of st) (ptr_of (var st v)).
@@ -1135,7 +1624,7 @@ Lemma asis_refuted_cmp :
 Proof. split; [vm_compute; reflexivity|]. split; vm_compute; reflexivity. Qed.
 
 Lemma safe_fixed o : op_safe cfg_fixed o = true.
-Proof. destruct o as [| | | | | | | | | | | | | | | | | | | |[] ? ?]; reflexivity. Qed.
+Proof. destruct o as [| | | | | | | | | | | | | | | | | | | |[] ? ?| | | | | | | |]; reflexivity. Qed.
 
 Lemma step_refines_fixed st o : Inv st -> op_pre (abs st) o = true -> refines1 cfg_fixed st o.
 Proof. intros HI Hp. exact (step_refines cfg_fixed st o HI Hp (safe_fixed o)). Qed.
@@ -1155,3 +1644,73 @@ Lemma run_refines_safe c n ops : ops_pre (repeat None n) ops = true -> forallb (
 Proof.
   intros Hp Hs. rewrite <- (abs_init n) in *. exact (run_refines c ops (init n) (inv_init n) Hp Hs).
 Qed.
+
+(* ---- held references: exact results, and the refutations for the code as pinned -- *)
+Lemma vec_held_result a o : op_held o = true -> snd (vec_step a o) <> RAny /\ snd (vec_step a o) <> RUAF.
+Proof.
+  destruct o; try discriminate; intros _; cbn [vec_step]; unfold vmember;
+    try (destruct (vvar a v) as [l|]; cbn [fst snd]; split; discriminate);
+    destruct (vvar a v) as [l|]; destruct (vvar a w) as [l2|]; cbn [fst snd]; split; discriminate.
+Qed.
+
+(* a held-reference operation returns exactly what std::vector returns: in particular no dangling reference is used *)
+Theorem held_exact c st o : Inv st -> op_pre (abs st) o = true -> op_safe c o = true -> op_held o = true ->
+  snd (step c st o) = snd (vec_step (abs st) o) /\ snd (step c st o) <> RUAF.
+Proof.
+  intros HI Hp Hs Hh. destruct (step_refines c st o HI Hp Hs) as [_ [R _]]. destruct (vec_held_result (abs st) o Hh) as [N1 N2].
+  destruct R as [E|E]; [contradiction|]. split; [exact E|rewrite E; exact N2].
+Qed.
+
+(* a(2,7); unsigned char &r = a[0], &s = a[1]; r = 1; s = 2;       (what std::swap(a[0], a[1]) does first) *)
+Definition witness_set2 : list op := [OCtorSize 0 2 7%N; OSet2 0 0 1%N 1 2%N].
+(* a(2,7); a[1] = 9; std::swap(a[0], a[1]); *)
+Definition witness_swap : list op := [OCtorSize 0 2 7%N; OSet 0 1 9%N; OSwap 0 0 1].
+(* a(2,7); unsigned char &r = a[0]; a[1]; return r; *)
+Definition witness_get_held : list op := [OCtorSize 0 2 7%N; OGetHeld 0 0 1].
+Definition witness_get_held_c : list op := [OCtorSize 0 2 7%N; OGetHeldC 0 0 1].
+(* a(2,7); unsigned char &r = a[0]; a.pop_back(); return r; *)
+Definition witness_held_pop : list op := [OCtorSize 0 2 7%N; OHeldPop 0 0].
+(* a(2,7); unsigned char *q = a.data(); byte_array b(a); q[0] = 9;     b must stay 7,7 *)
+Definition witness_data_copy : list op := [OCtorSize 0 2 7%N; ODataHeldCopy 0 1 0 9%N].
+(* a(2,7); byte_array b; unsigned char *q = a.data(); b = a; q[0] = 9; *)
+Definition witness_data_assign : list op := [OCtorSize 0 2 7%N; OCtor 1; ODataHeldAssign 0 1 0 9%N].
+(* a(2,7); byte_array b(a); const unsigned char *q = ca.data(); a[0] = 9; return q[0];     must be 9 *)
+Definition witness_cdata : list op := [OCtorSize 0 2 7%N; OCtorCopy 1 0; OCDataHeld 0 0 0 9%N].
+
+Definition last_result (rs : list result) : result := last rs RPre.
+
+(* unconditional detach() in operator[] / pop_back: the first reference dangles when it is used *)
+Lemma index_pinned_refuted c : c_fix_index c = false ->
+  Forall (fun ops => ops_pre (abs (init 1)) ops = true /\ last_result (snd (run c (init 1) ops)) = RUAF /\
+                     last_result (snd (vec_run (abs (init 1)) ops)) <> RUAF)
+         [witness_set2; witness_swap; witness_get_held; witness_get_held_c; witness_held_pop].
+Proof.
+  destruct c as [a b d e f]. cbn [c_fix_index]. intros E. subst e.
+  destruct a, b, d, f; repeat constructor; vm_compute; try reflexivity; discriminate.
+Qed.
+
+(* a block whose data() pointer is out is shared with the copy: the write through the pointer changes both arrays *)
+Lemma leak_pinned_refuted c : c_fix_leak c = false ->
+  Forall (fun ops => ops_pre (abs (init 2)) ops = true /\
+                     vvar (abs (fst (run c (init 2) ops))) 1 = Some [9; 7]%N /\
+                     vvar (fst (vec_run (abs (init 2)) ops)) 1 = Some [7; 7]%N)
+         [witness_data_copy; witness_data_assign].
+Proof.
+  destruct c as [a b d e f]. cbn [c_fix_leak]. intros E. subst f.
+  destruct a, b, d, e; repeat constructor; vm_compute; reflexivity.
+Qed.
+
+(* ... and a const data() pointer into a shared block keeps showing the other array after a write *)
+Lemma leak_pinned_refuted_const c : c_fix_leak c = false ->
+  ops_pre (abs (init 2)) witness_cdata = true /\
+  last_result (snd (run c (init 2) witness_cdata)) = RByte 7 /\
+  last_result (snd (vec_run (abs (init 2)) witness_cdata)) = RByte 9.
+Proof.
+  destruct c as [a b d e f]. cbn [c_fix_leak]. intros E. subst f.
+  destruct a, b, d, e; repeat split; vm_compute; reflexivity.
+Qed.
+
+(* with only the subscript patch the element-reference operations are right in every state *)
+Lemma held_index_safe c o : c_fix_index c = true ->
+  match o with OSet2 _ _ _ _ _ | OSwap _ _ _ | OGetHeld _ _ _ | OGetHeldC _ _ _ | OHeldPop _ _ => op_safe c o = true | _ => True end.
+Proof. intros H. destruct o; try exact I; exact H. Qed.
